@@ -308,6 +308,26 @@ def compare_training(wd, lines, enc, acc, case, raw_bytes=None, keep_existing=Fa
             got = list(getattr(sg, attr))
             if got != want:
                 fails.append(('terminal-scorer', '%s/1.txt: scorer loader %d values, file has %d%s' % (folder, len(got), len(want), first_diff(got, want))))
+    # ---- the structure lists: every line of Grammar/grammar.txt is a structure of the guesser's grammar and of the scorer's, with the probability written
+    for folder in ('Grammar', 'Prince'):
+        rows = P.read_list(os.path.join(base, folder, 'grammar.txt'), 'ascii')
+        want = [(v, float(pt)) for v, pt in rows]
+        try:
+            gb = gg if folder == 'Grammar' else P.load_guesser(base, folder='Prince')
+        except Exception as e:
+            gb = None
+            fails.append(('load', 'guesser cannot load the ruleset with the %s structures: %r' % (folder, e)))
+        if gb is not None:
+            got = [(''.join(t for t in b['replacements'] if t[0] != 'C'), b['prob']) for b in gb.base]
+            if [v for v, _ in got] != [v for v, _ in want]:
+                fails.append(('base-guesser', '%s/grammar.txt: guesser loader has %d structures, the file %d%s' % (folder, len(got), len(want), first_diff([v for v, _ in got], [v for v, _ in want]))))
+            elif any(abs(a - b) > 1e-15 * max(a, b) for (_, a), (_, b) in zip(got, want)):
+                bad = next((x, y) for x, y in zip(got, want) if abs(x[1] - y[1]) > 1e-15 * max(x[1], y[1]))
+                fails.append(('base-guesser', '%s/grammar.txt: structure %s has probability %r in the guesser, the file says %r' % (folder, bad[0][0], bad[0][1], bad[1][1])))
+        if oks and folder == 'Grammar':
+            got = list(sg.count_base_structures.items())
+            if got != want:
+                fails.append(('base-scorer', 'Grammar/grammar.txt: scorer loader has %d structures, the file %d%s' % (len(got), len(want), first_diff([v for v, _ in got], [v for v, _ in want]))))
     # ---- e-mail providers and website hosts (read by the guesser only: the E and W variables of PRINCE structures)
     for rel, k in ((('Emails', 'email_providers.txt'), 'E'), (('Websites', 'website_hosts.txt'), 'W')):
         fpath = os.path.join(base, *rel)
@@ -540,7 +560,7 @@ def run_probs(acc):
 
 
 def run_bigfile(enc, tier, acc):
-    nums = [str(x) for x in range(300000, 360000) if '19' not in str(x) and '20' not in str(x)][:10400 if tier == 'quick' else 25000]
+    nums = [str(x) for x in range(300000, 360000) if '19' not in str(x) and '20' not in str(x)][:12496 if tier == 'quick' else 24996]      # with the four passwords below 12 500 / 25 000 lines: at coverage 0.5 a structure seen once has probability 4e-05 / 2e-05, which Python writes without a decimal point
     lines = nums + ['password', 'Password1', 'x yz', 'caf\u00e9']
     wd = tree.mkdtemp('pcfgmc-c07b-')
     acc.evals += 1
